@@ -45,6 +45,7 @@ def generate(rng, tier, stats):
                  "strategy": {"reconcileFrequency": freq, "slowStartIntervalDuration": interval, "slowStartAdditiveIncrease": inc,
                               "maxParallelPodCreation": mp, "maxUnavailable": rng.choice([1, 2, "50%"])}}
         c = worldgen.gen_ers_world(rng, stats, force)
+        sub = rng.random() < 0.4     # the clock carries fractions of a second (stored stamps have a resolution of one second)
         # place the Active transition around a multiple of the interval
         rs = [o for o in c["objects"] if o["kind"] == "ExtendedDaemonSetReplicaSet" and o["metadata"]["name"] == "foo-a"]
         if rs and interval and rng.random() < 0.7:
@@ -52,13 +53,17 @@ def generate(rng, tier, stats):
             conds[:] = [x for x in conds if x["type"] != "Active"]
             k = rng.choice([0, 1, 2, 3])
             # (a False Active condition - the rollout was frozen or paused - does not start the ramp: t = 0)
-            conds.append(K.cond("Active", rng.choice(["True", "True", "True", "False"]), trans=-max(0, int(k * interval) + rng.choice([-1, 0, 1]))))   # never in the future
+            conds.append(K.cond("Active", rng.choice(["True", "True", "True", "False"]), trans=-max(0, int(k * interval) + (rng.choice([-1, -1, -1, 0, 1]) if sub else rng.choice([-1, 0, 1])))))   # never in the future
         # further reconciles at arbitrary times
         ops = [c["ops"][0]]
+        if sub:
+            ops.insert(0, K.sleep(0, millis=rng.choice([300, 500, 600, 700, 900])))
+            wprop.bump(stats, "clock with a sub-second part", "yes")
         for _ in range(rng.choice([2, 3, 4])):
             d = int(rng.choice([0, 1, max(freq - 1, 0), freq, freq + 1, 2 * freq, 3 * freq, interval, interval + 1, 3 * interval + 1, 9, 28]))
-            if d:
-                ops.append(K.sleep(min(d, 7200)))
+            ms = rng.choice([0, 100, 400, 500, 800]) if sub else 0
+            if d or ms:
+                ops.append(K.sleep(min(d, 7200), millis=ms))
             faults = None
             if rng.random() < 0.2:
                 # a later sync with rejected pod calls: what it did must still be spaced from the next one
@@ -76,7 +81,28 @@ def generate(rng, tier, stats):
         wprop.bump(stats, "interval", interval)
         wprop.bump(stats, "increase", inc)
         out.append(c)
+    for _ in range(25 if n < 1000 else 300):
+        out.append(directed_boundary(rng, stats))
     return out
+
+
+def directed_boundary(rng, stats):
+    """the sync runs in the last half second before a slot of the ramp opens: the allowance is still that of the slot before"""
+    interval = rng.choice([1, 5, 60])
+    k = rng.choice([0, 1, 2, 3])
+    force = {"scenario": "active", "n": 12, "classes": ["none", "none", "none", "none", "none", "uptodate_ready"], "no_faults": True,
+             "open_gates": True, "annotations": {},
+             "strategy": {"reconcileFrequency": 10, "slowStartIntervalDuration": interval, "slowStartAdditiveIncrease": rng.choice([1, 2]),
+                          "maxParallelPodCreation": 250, "maxUnavailable": 1}}
+    c = worldgen.gen_ers_world(rng, stats, force)
+    rs = [o for o in c["objects"] if o["kind"] == "ExtendedDaemonSetReplicaSet" and o["metadata"]["name"] == "foo-a"]
+    if rs:
+        conds = rs[0]["status"].setdefault("conditions", [])
+        conds[:] = [x for x in conds if x["type"] != "Active"]
+        conds.append(K.cond("Active", "True", trans=-max(0, k * interval - 1)))
+    c["ops"] = [K.sleep(0, millis=rng.choice([500, 600, 800, 900, 999])), c["ops"][0]]
+    wprop.bump(stats, "half a second before a slot boundary", "interval %ds" % interval)
+    return c
 
 
 def nontrivial(c, r):
